@@ -360,6 +360,29 @@ def arc_archive(members, spark=False):
     return out + bytes([0x1a, 0x80 if spark else 0x00])
 
 
+def arc_tree(nodes, spark=False, top=True):
+    """ARC / Spark archive with nested directories.  nodes: list of ("file", name, data, method) or
+    ("dir", name, children).  A directory is an entry whose data is a nested archive: Spark: method 0x82 with the
+    RISC OS filetype 0xDDC in the load address, closed by an end-of-archive marker (1a 80); ARC 6: type 30, closed
+    by an end-of-directory marker (1a 1f)."""
+    out = b""
+    for n in nodes:
+        if n[0] == "file":
+            out += arc_entry(n[1], n[2], n[3], spark)
+        else:
+            nested = arc_tree(n[2], spark, top=False)
+            if spark:
+                h = bytes([0x1a, 0x82]) + arc_name(n[1]) + struct.pack("<I", len(nested)) + struct.pack("<HH", 0x2021, 0) + \
+                    struct.pack("<H", crc16_fast(nested)) + struct.pack("<I", len(nested)) + struct.pack("<III", 0xfffddc00 | 0x42, 0, 3)
+            else:
+                h = bytes([0x1a, 30]) + arc_name(n[1]) + struct.pack("<I", len(nested)) + struct.pack("<HH", 0x2021, 0) + \
+                    struct.pack("<H", crc16_fast(nested)) + struct.pack("<I", len(nested))
+            out += h + nested
+    if top or spark:
+        return out + bytes([0x1a, 0x80 if spark else 0x00])
+    return out + bytes([0x1a, 31])
+
+
 # ------------------------------------------------------------------ ArcFS
 def arcfs_archive(members, pad_entries=0):
     """members: list of (name(<=11), data, method) with method 0x82 stored / 0x83 packed."""
@@ -541,3 +564,167 @@ def mmcmp_stored(p, block_size=0x10000, subs_per_block=1):
     hdr = b"ziRCONia" + struct.pack("<HHHIIBB", 14, 0x1300, len(blocks), len(p), blktable, 0, 0)
     assert len(hdr) == hdr_len
     return hdr + body + b"".join(struct.pack("<I", o) for o in offsets)
+
+
+# ------------------------------------------------------------------ MMCMP (bit-packed blocks)
+MM_CMD8 = [0x01, 0x03, 0x07, 0x0f, 0x1e, 0x3c, 0x78, 0xf8]
+MM_FETCH8 = [3, 3, 3, 3, 2, 1, 0, 0]
+MM_CMD16 = [0x0001, 0x0003, 0x0007, 0x000f, 0x001e, 0x003c, 0x0078, 0x00f0,
+            0x01f0, 0x03f0, 0x07f0, 0x0ff0, 0x1ff0, 0x3ff0, 0x7ff0, 0xfff0]
+MM_FETCH16 = [4, 4, 4, 4, 3, 2, 1, 0, 0, 0, 0, 0, 0, 0, 0, 0]
+MMCMP_COMP, MMCMP_DELTA, MMCMP_16BIT, MMCMP_ABS16 = 0x0001, 0x0002, 0x0004, 0x0200
+
+
+class _BitW:
+    def __init__(s):
+        s.out = bytearray()
+        s.acc = 0
+        s.n = 0
+
+    def put(s, v, nb):
+        assert 0 <= v < (1 << nb) or nb == 0
+        s.acc |= v << s.n
+        s.n += nb
+        while s.n >= 8:
+            s.out.append(s.acc & 0xff)
+            s.acc >>= 8
+            s.n -= 8
+
+    def done(s):
+        if s.n:
+            s.out.append(s.acc & 0xff)
+            s.acc = 0
+            s.n = 0
+        return bytes(s.out)
+
+
+def _mm_codes(values, cmd, fetch, esc_bits, top, numbits, rng, end_marker):
+    """MMCMP adaptive-width code stream for `values` (each < top + 2**esc_bits), starting at width `numbits`"""
+    w = _BitW()
+    nw = len(cmd)
+
+    def change(nb):
+        nonlocal numbits
+        f = fetch[numbits]
+        w.put(cmd[numbits] + (nb >> f), numbits + 1)
+        w.put(nb & ((1 << f) - 1), f)
+        if nb != numbits:
+            numbits = nb
+    for v in values:
+        if v >= top:
+            change(numbits)                      # "same width" escape, then esc_bits bits
+            x = v - top
+            w.put(x, esc_bits)
+            if x == (1 << esc_bits) - 1:
+                w.put(0, 1)                      # not the end marker
+            continue
+        need = next(k for k in range(nw) if v < cmd[k])
+        if v >= cmd[numbits] or (rng is not None and rng.random() < 0.05):
+            nb = need if rng is None or rng.random() < 0.7 else rng.randint(need, nw - 1)
+            if nb != numbits:
+                change(nb)
+        w.put(v, numbits + 1)
+    if end_marker:
+        change(numbits)
+        w.put((1 << esc_bits) - 1, esc_bits)
+        w.put(1, 1)
+    return w.done()
+
+
+def mmcmp_block(subs, kind="stored", delta=False, abs16=False, numbits=None, rng=None, end_marker=False, table="freq"):
+    """one MMCMP block.  subs: list of (unpk_pos, bytes).  kind: "stored" | "8bit" | "16bit" (16-bit: even sizes).
+    Returns the block bytes (header + sub-block table + data)."""
+    data = b"".join(d for _, d in subs)
+    flags = 0
+    tt = 0
+    nb0 = 0
+    if kind == "stored":
+        body = data
+    elif kind == "8bit":
+        flags = MMCMP_COMP | (MMCMP_DELTA if delta else 0)
+        syms = []
+        prev = 0
+        for b in data:
+            if delta:
+                syms.append((b - prev) & 0xff)
+                prev = b
+            else:
+                syms.append(b)
+        if table == "identity":
+            tab = list(range(256))
+        else:
+            freq = {}
+            for x in syms:
+                freq[x] = freq.get(x, 0) + 1
+            tab = sorted(freq, key=lambda x: (-freq[x], x))
+        inv = {x: i for i, x in enumerate(tab)}
+        tt = len(tab)
+        nb0 = numbits if numbits is not None else (rng.randint(0, 7) if rng else 7)
+        body = bytes(tab) + _mm_codes([inv[x] for x in syms], MM_CMD8, MM_FETCH8, 3, 0xf8, nb0, rng, end_marker)
+    else:
+        assert all(len(d) % 2 == 0 for _, d in subs)
+        flags = MMCMP_COMP | MMCMP_16BIT | (MMCMP_DELTA if delta else 0) | (MMCMP_ABS16 if abs16 else 0)
+        vals = []
+        prev = 0
+        for i in range(0, len(data), 2):
+            wv = data[i] | (data[i + 1] << 8)
+            if delta:
+                x = (wv - prev) & 0xffff
+                prev = wv
+            elif abs16:
+                x = wv
+            else:
+                x = wv ^ 0x8000
+            sgn = x - 0x10000 if x >= 0x8000 else x
+            vals.append(2 * sgn if sgn >= 0 else -2 * sgn - 1)
+        nb0 = numbits if numbits is not None else (rng.randint(0, 15) if rng else 15)
+        body = _mm_codes(vals, MM_CMD16, MM_FETCH16, 4, 0xfff0, nb0, rng, end_marker)
+    xor = 0
+    for b in body:
+        xor ^= b
+    bh = struct.pack("<IIIHHHH", len(data), len(body), xor, len(subs), flags, tt, nb0)
+    for pos, d in subs:
+        bh += struct.pack("<II", pos, len(d))
+    return bh + body
+
+
+def mmcmp_file(p, blocks):
+    """blocks: list of block byte strings from mmcmp_block (their sub-blocks must tile the payload `p`)"""
+    hdr_len = 24
+    body = b""
+    offs = []
+    for b in blocks:
+        offs.append(hdr_len + len(body))
+        body += b
+    hdr = b"ziRCONia" + struct.pack("<HHHIIBB", 14, 0x1300, len(blocks), len(p), hdr_len + len(body), 0, 0)
+    return hdr + body + b"".join(struct.pack("<I", o) for o in offs)
+
+
+def mmcmp_packed(p, rng, max_block=5000, kinds=("stored", "8bit", "16bit")):
+    """a whole MMCMP file with a random mix of stored / 8-bit / 16-bit blocks, with and without DELTA / ABS16, several
+    sub-blocks per block (written in shuffled order inside the block)"""
+    blocks = []
+    q = 0
+    desc = []
+    while q < len(p):
+        n = min(len(p) - q, rng.choice([1, 2, 7, 64, 333, max_block]))
+        kind = rng.choice(kinds)
+        if kind == "16bit":
+            n -= n % 2
+            if n == 0:
+                kind = "8bit"
+                n = 1
+        chunk = p[q:q + n]
+        cuts = sorted(set([0, n] + [rng.randrange(0, n + 1) for _ in range(rng.choice([0, 0, 1, 2, 4]))]))
+        if kind == "16bit":
+            cuts = sorted(set(c - c % 2 for c in cuts))
+        subs = [(q + a, chunk[a:b]) for a, b in zip(cuts, cuts[1:]) if b > a]
+        if rng.random() < 0.3:
+            rng.shuffle(subs)
+        delta = rng.random() < 0.5
+        abs16 = rng.random() < 0.5
+        blocks.append(mmcmp_block(subs, kind, delta=delta, abs16=abs16, rng=rng, end_marker=rng.random() < 0.2,
+                                  table=rng.choice(["freq", "freq", "identity"])))
+        desc.append("%s%s%s/%d" % (kind, "+d" if delta and kind != "stored" else "", "+a" if abs16 and kind == "16bit" else "", len(subs)))
+        q += n
+    return mmcmp_file(p, blocks), desc
